@@ -243,7 +243,7 @@ class C02(Check):
 
 class C06(Check):
     pid = "C06"
-    lean_modules = ["MTProps.C06", "MTProps.CodeLikelihood"]
+    lean_modules = ["MTProps.C06", "MTProps.CodeLikelihood", "MTProps.CodeControl"]
 
     def body(self):
         rng = self.rng
